@@ -23,6 +23,42 @@ CHECKS = {
    note=TB + "The marker conjunct is false after a spatial-layer switch (known finding nack-marker-after-spatial-switch); cache soundness is C05.",
    technique="Lean 4 proof (Reverse∘Map soundness) + differential check of gotNACK with first-transmission oracle",
    ref="DESIGN.md section 5 C03"),
+ "C02": dict(engine="codecs+down+pmap",
+   text="Lean 4 proofs about the model of codecs.RewritePacket for every byte list, codec string and argument: length preserved, never panics, only bytes 1 "
+        "(bit 7, only set), 2, 3 and the VP8 picture-id bytes change, the new id is old+delta modulo the 7-/15-bit space and both of pion's parsers (modelled) accept "
+        "the output with exactly that id; differential run of the model against the real PacketFlags/RewritePacket/pion parsers on type-directed and malformed "
+        "packets, and of the real rtpDownTrack.Write on layered VP8/VP9 streams with a picture-id consecutiveness oracle (incl. a >65536-withheld-packet history)",
+   note=TB + "pion's rtp/VP8/VP9 parsers are re-implemented in Lean and differentially tested, not proved equal to pion. Write-level composition theorems (marker rule, "
+        "id consecutiveness) are in Props/C02Write.lean when present; until then that part rests on the oracle.",
+   technique="Lean 4 proof (byte-frame theorems on RewritePacket, parser round trip) + differential check with picture-id oracle",
+   ref="DESIGN.md section 5 C02"),
+ "C04": dict(engine="down+codecs",
+   text="Lean 4 proofs over the model of the down track's layer state machine (packed layer word, Write's bookkeeping and switch rules, adjustLayer, updateRate, "
+        "limitSid): invariant (selection ≤ max seen, limitSid ⇒ wanted 0) in every reachable state, spatial switch only at keyframe start or follow-new-top, temporal "
+        "fall only at frame start / rise only at keyframe, up-sync point ≤ wanted, or follow-new-top, feedback never moves the current layer, in-order packet above "
+        "the selection is withheld, low-quality steering from the next keyframe on, loss-rate ceiling within bounds; the model runs against the real rtpDownTrack "
+        "through a shim on every check and every layer transition is re-judged by an oracle from the packet's flags",
+   note=TB + "Time is an input (pinned estimator rate, explicit ceilings); op-atomic model: the unsynchronised load-modify-store of the layer word (DESIGN P3) is not covered.",
+   technique="Lean 4 invariant/transition proofs on the layer state machine + differential check with transition-legality oracle",
+   ref="DESIGN.md section 5 C04"),
+ "C06": dict(engine="cache+upe2e",
+   text="Lean 4 proofs over the model of the loss bitmap, the RFC 3550 style counters, ToBitmap, the read loop's NACK decision and the report arithmetic: bitmap "
+        "representation invariant over every set/get history, every seqno named by a NACK lies in [first, next), was not received in the epoch, is at least 3 packets "
+        "behind the one just stored and is never named twice; received ≤ expected per interval and in total; fraction ≤ 255; extended seqno monotone unless the stream "
+        "jumps back by more than 256; ToBitmap lossless; an isolated loss in an in-order stream is NACKed exactly once.  The model runs against the real "
+        "packetcache API and against the real readLoop/nackWriter over in-process PeerConnections (NACKs observed at the publisher) on every check",
+   note=TB + "uint32 counters and the 16-bit cycle counter do not wrap; seqno-level claims need the epoch to span less than one 16-bit circle (counterexamples proved). "
+        "Known finding buffered-nack-evicted (nackWriter re-requests packets that were received but evicted from the cache).",
+   technique="Lean 4 invariant proofs (bitmap, counters) + differential check incl. end-to-end readLoop over in-process WebRTC",
+   ref="DESIGN.md section 5 C06"),
+ "C12": dict(engine="codecs+down (+sig, api when integrated)",
+   text="Media part proved in Lean 4: the transcriptions of PacketFlags, RewritePacket, Keyframe (VP8, VP9, AV1 OBU walk, H.264 single/STAP/MTAP/FU), "
+        "KeyframeDimensions and of pion's RTP/VP8/VP9 parsers never evaluate an out-of-range index and never change a packet's length, for every byte list and codec "
+        "string; the real functions are run under recover() on type-directed and malformed packets on every check and any panic is reported with the input",
+   note=TB + "Signalling and HTTP parts are covered by the sig/api engines where integrated; JSON decoding, websocket framing, pion's SDP/RTCP parsers are exercised only "
+        "by the harness (exploration, not proof).",
+   technique="Lean 4 totality proofs (no panic, length preserved) + differential/fuzz run under recover()",
+   ref="DESIGN.md section 5 C12"),
  "C05": dict(engine="cache",
    text="Lean 4 refinement proof (ring buffer with three-way resize refines a bounded FIFO; Get/GetAt soundness; newest-window retrievability) for "
         "every capacity ≥ 1 and every op sequence, tied to packetcache.Cache by a differential run of the model against the real API on every check, "
